@@ -206,6 +206,89 @@ class Lane:
                 "counters": self.c, "samples": self.samples, "exhaustive": True}
 
 
+class NullDisk:
+    def save_block(self, block):
+        pass
+
+    def flush_blocks(self):
+        pass
+
+    def write_peers(self, peer):
+        pass
+
+    def save_transaction_for_debugging(self, t):
+        pass
+
+
+def socket_lane(lane, rng, nstreams):
+    """the full path: real LocalPeer.handle_remote_peer_selector_event -> recv on an in-memory socket -> receiver ->
+    handle_message_received, with the read sizes chosen by the harness"""
+    from skv import simnet
+    from skepticoin.coinstate import CoinState
+    import skepticoin.networking.remote_peer as rp
+    ms = lane.ms
+    log = []
+    orig = rp.ConnectedRemotePeer.handle_message_received
+
+    def rec(self, header, message):
+        log.append((header.id, type(message).__name__))
+        return orig(self, header, message)
+    rp.ConnectedRemotePeer.handle_message_received = rec
+    try:
+        for _ in range(nstreams):
+            net = simnet.Net(rng)
+            node = net.add_node("S", ("10.0.0.1", 2412), CoinState.zero(), NullDisk())
+            wire = simnet.Wire(net.clock)
+            gen_id = node.lp.chain_manager.coinstate.current_chain_hash
+            frames = [wire.hello(nonce=rng.randrange(1 << 32))]
+            for _k in range(rng.randint(1, 5)):
+                kind = rng.randrange(6)
+                m = [ms.GetPeersMessage(), ms.GetBlocksMessage([gen_id]), ms.GetBlocksMessage([objgen.h32(rng)]),
+                     ms.InventoryMessage([]), ms.GetDataMessage(ms.DATA_BLOCK, rng.choice([gen_id, objgen.h32(rng)])),
+                     ms.PeersMessage([ms.Peer(0, objgen.Gen.ip(None, rng), 2412)])][kind]
+                frames.append(wire.frame(m, in_response_to=rng.choice([0, 5])))
+            corrupt = rng.choice(["none", "none", "magic", "length", "payload"])
+            at = rng.randrange(1, len(frames))
+            if corrupt == "magic":
+                frames[at] = b"MAJ1" + frames[at][4:]
+            elif corrupt == "length":
+                frames[at] = frames[at][:4] + struct.pack(">I", ref.MAX_MESSAGE_SIZE + 1) + frames[at][8:]
+            elif corrupt == "payload":
+                frames[at] = frames[at][:8 + ref.MSG_HEADER_LEN] + b"\x7f\x7f" + frames[at][8 + ref.MSG_HEADER_LEN + 2:]
+            stream = b"".join(frames)
+            exp_ids, exp_refuse = expected(stream, ms)
+            for rep in range(6):
+                raw = net.raw_connect(node, src=("10.4.4.%d" % (rep + 1), 43000 + rep))
+                del log[:]
+                raw.push(stream)
+                mode = rng.choice(["bytewise", "random", "whole", "pairs"])
+                sizes = []
+                guard = 0
+                while raw.peer.in_flight and not raw.peer.closed and raw.peer in node.lp.selector.map and guard < 20000:
+                    size = {"bytewise": 1, "whole": 1024, "pairs": 2}.get(mode) or rng.choice([1, 2, 3, 4, 5, 7, 8, 9, 50, 53, 57, 1024])
+                    sizes.append(size)
+                    net.do_read(node, raw.peer, size)
+                    guard += 1
+                lane.c["socket_lane_fragmentations"] += 1
+                lane.c["fragmentations"] += 1
+                lane.distinct += 1
+                got = [i for i, _n in log]
+                w = {"stream": stream.hex(), "cuts": [], "corrupt": corrupt, "lane": "socket", "sizes": sizes[:50]}
+                closed = raw.peer.closed or raw.peer not in node.lp.selector.map
+                if got != exp_ids:
+                    lane.v("socket-lane:delivered-sequence-differs", "through the socket path ids %s were delivered, reference "
+                           "parser says %s (read sizes %s, corruption %s)" % (got, exp_ids, mode, corrupt), w)
+                if exp_refuse and not closed:
+                    lane.v("socket-lane:bad-frame-not-refused", "connection still open after a %s frame (read sizes %s)" % (corrupt, mode), w)
+                if not exp_refuse and closed:
+                    lane.v("socket-lane:well-formed-stream-refused", "connection closed on a well-formed stream (read sizes %s)" % mode, w)
+                if node.escaped:
+                    lane.v("socket-lane:exception-escaped", node.escaped[0][:200], w)
+                    node.escaped.clear()
+    finally:
+        rp.ConnectedRemotePeer.handle_message_received = orig
+
+
 def run_shard(spec):
     env.boot(fake_scrypt=False, horizon_off=False)
     lane = Lane(spec)
@@ -219,7 +302,7 @@ def run_shard(spec):
     rng = random.Random("c11/%d/%d" % (spec["seed"], spec["shard"]))
     quick = spec["tier"] == "quick"
     # exhaustive 2-/3-way cuts of short streams
-    nshort = 2 if quick else 40
+    nshort = 4 if quick else 40
     done = 0
     while done < nshort:
         info = build_stream(g, rng, small=True)
@@ -231,6 +314,7 @@ def run_shard(spec):
     for _ in range(60 if quick else 1500):
         info = build_stream(g, rng, small=False)
         lane.run_stream(info, rng, exhaustive=False, nrandom=60 if len(info["stream"]) < 4000 else 12)
+    socket_lane(lane, rng, 25 if quick else 600)
     return lane.result()
 
 
